@@ -118,6 +118,12 @@ def history(rng, length):
                 if rng.random() < .5:
                     op['abandon'] = 'close'
                     out = 'closed'
+                    if rng.random() < .4 and op['consume'] < nn - 1:
+                        # one of the tasks the consumer never asked for fails in the background while the generator is suspended;
+                        # the generator is then closed without being resumed
+                        op['fail'] = {'at': [rng.randrange(op['consume'] + 1, nn)], 'exc': 'ValueError'}
+                        op['pause_before_close'] = 0.5
+                        op['max_tasks_active'] = 2 * nn
                 else:
                     out = 'open'
                     open_gen = True
@@ -250,6 +256,7 @@ def run(chk):
                 mops[k] = m.replace(':poolfailed:', ':settled:')
         lines.append('hist ops=' + pre + ';'.join(mops))
         refs.append((sc, o, 1 if pre else 0))
+    rejected_errs = {}
     for line, res, (sc, o, skip) in zip(lines, drv.run(lines), refs):
         chk.count('control snapshots after every operation vs Mpire.History.step', key=line, nontrivial=line.count(';') >= 2, sample={'line': line, 'model': res[:200]})
         if not res.startswith('ok '):
@@ -293,6 +300,21 @@ def run(chk):
                 if not (et == 'RuntimeError' and any(':open:' in m2 for m2 in sc['model_ops'][:opi])):
                     chk.violation('no_foreign_error_surfaces', {'scenario': sc}, {'op': opi, 'raised': oo.get('exc')},
                                   'a call that should succeed raises only the documented "another map is running" error', input_class='foreign_error')
+                else:
+                    # the error for "another map is running" is the same whatever happened on the pool before (compared across the
+                    # histories of this run: type, args and attributes — no wording is assumed)
+                    eventful = any(x['op'] == 'terminate' or x.get('fail') or x.get('expect_rejected') for x in sc['ops'][:opi])
+                    rejected_errs.setdefault((et, msg, str((oo.get('exc') or {}).get('attrs'))), []).append((eventful, sc, opi, oo.get('exc')))
+    if len(rejected_errs) > 1:
+        # the reference is what such a call raises on a pool on which nothing else had happened
+        plain = [k for k, v in rejected_errs.items() if any(not e for e, *_ in v)]
+        ref = max(plain or list(rejected_errs), key=lambda k: len(rejected_errs[k]))
+        for k, v in rejected_errs.items():
+            if k != ref:
+                _, sc_, opi_, exc_ = v[0]
+                chk.violation('error_of_a_call_is_its_own', {'scenario': sc_}, {'op': opi_, 'raised': exc_, 'same_situation_elsewhere_raises': {'type': ref[0], 'args': ref[1]}},
+                              'a call made while a lazy call is open raises the documented error, not one left over from earlier operations',
+                              input_class='stale_error_surfaces')
     ks = kill_histories(rng, 120 if chk.tier == 'quick' else 2000)
     kobs = run_scenarios(chk, 'histories in which a worker is killed inside a task, then the pool is used again (DetSim)', ks, {'C06', 'C01', 'C02'},
                          nontrivial=lambda sc, o: bool(o.get('injected')),
